@@ -302,9 +302,9 @@ func MakeSignatureContent(
 				GetValueT(frame, class, methodT.GetMethodName(), darg, methodT.IsStatic)
 
 			// *a or **a
-			if darg[0] == '*' {
-				switch darg[1] {
-				case '*':
+			if len(darg) > 0 && darg[0] == '*' {
+				switch {
+				case len(darg) > 1 && darg[1] == '*':
 					dargT = MakeDoubleAsteriskKeyValue()
 
 				default:
